@@ -59,7 +59,9 @@ def check_case(spec: dict) -> dict:
     """One evaluable, one or more visualize() calls on it (spec['more_calls']): every call is judged on its own, so a
     label map remembered from an earlier call shows up as a wrong label of a later one."""
     tree = spec["tree"]
-    ev = make_evaluable(tree, [tuple(e) for e in spec.get("imports", [])])
+    # with a level limit the architecture's modules are the truncated names; an alias for a module below the limit is
+    # an alias for a module that does not exist
+    ev = make_evaluable(tree, [tuple(e) for e in spec.get("imports", [])], spec.get("level_limit"))
     calls = [spec] + list(spec.get("more_calls", []))
     viols, labels, nontrivial = [], [], False
     for i, call in enumerate(calls):
@@ -70,6 +72,10 @@ def check_case(spec: dict) -> dict:
             viols.append(v)
         labels += r["labels"]
         nontrivial = nontrivial or r["nontrivial"]
+    if spec.get("level_limit") is not None:
+        labels.append("level-limited")
+        if any(a in tree and a not in set(ev.modules) for c in calls for a in c["aliases"]):
+            labels.append("alias-for-module-below-the-limit")
     if len(calls) > 1:
         labels.append("repeated-calls")
         if any(set(c["aliases"]) == set(calls[0]["aliases"]) and c["aliases"] != calls[0]["aliases"] for c in calls[1:]):
@@ -186,6 +192,8 @@ def cases(draw):
     spacing = draw(st.sampled_from([None, None, 0.3, 1.0]))
     imports = draw(RS.import_relation(tree, max_edges=5))
     spec = {"tree": tree, "aliases": aliases, "spacing": spacing, "extra": extra, "imports": [list(e) for e in imports]}
+    if draw(st.integers(0, 3)) == 0:
+        spec["level_limit"] = draw(st.integers(0, 2))
     if draw(st.integers(0, 2)) == 0:
         more = []
         for _ in range(draw(st.integers(1, 2))):
